@@ -182,9 +182,8 @@ def parseLiteralFails (scalar : String) (v : Value) : Option Bool :=
   else
     -- custom scalar built from SDL: `parse_literal = _untyped_literal` (/repo a2b8a10): every literal is accepted -
     -- scalar and enum literals by their `.value`, `null`, list and object literals converted (JSON-like scalars)
-    match v with
-    | .var _ => some true
-    | _ => some false
+    -- a variable anywhere inside has no `.value`: the conversion raises, reported as an invalid literal
+    some v.hasVar
 
 /-- `_check_scalar(node)`: errors added (0/1), or `none` = crash -/
 def checkScalar (s : SchemaD) (ti : TI) (v : Value) : Option Nat :=
@@ -196,6 +195,10 @@ def checkScalar (s : SchemaD) (ti : TI) (v : Value) : Option Nat :=
       | none => none
       | some true => some 1
       | some false => some 0
+
+/-- `enter_object_value` at a position that is not of input-object type raises `SkipNode` only when `_check_scalar`
+    reported (proposed_fixes/C06-H5: an ACCEPTED object literal - custom scalar - stays visible to the other rules) -/
+def scalarSkip (o : Option Nat) : Bool := o != some 0
 
 def RS.addOpt (r : Rule) (o : Option Nat) (st : RS) : RS :=
   match o with
@@ -332,8 +335,8 @@ def enterRule (s : SchemaD) (fx : Fixes) (r : Rule) (n : Node) (ti : TI) (st : R
         if isInputObject s b then
           let given := fs.map (·.name)
           (st.errN r ((inputFields s b).filter fun fd => ArgD.required fd && !given.contains fd.name).length, false)
-        else (st.addOpt r (checkScalar s ti v), true)
-      | none => (st.addOpt r (checkScalar s ti v), true)
+        else (st.addOpt r (checkScalar s ti v), scalarSkip (checkScalar s ti v))
+      | none => (st.addOpt r (checkScalar s ti v), scalarSkip (checkScalar s ti v))
     | _ => (st, false)
   | valuesOfCorrectType, .objField _ =>
     (match ti.inputType, ti.parentInputType s fx with
